@@ -48,9 +48,16 @@ func gen(t *rapid.T) Case {
 			s.CancelNS = at
 		}
 	}
+	respClosed := false
 	after := func(n int) {
 		for r := 0; r < n; r++ {
 			op := rapid.SampledFrom([]string{"send", "recv", "recv", "closereq", "closeresp"}).Draw(t, "afterop")
+			if op == "recv" && respClosed {
+				op = "send" // receiving after CloseResponse is not a meaningful program
+			}
+			if op == "closeresp" {
+				respClosed = true
+			}
 			co := prog.COp{Op: op}
 			if op == "send" {
 				co.Msg = msg(30+r, rapid.SampledFrom([]int{5, 3000}).Draw(t, "asize"))
@@ -238,12 +245,23 @@ func check(tt *testing.T, c Case) (pbt.Info, error) {
 			return s.CancelNS < 0
 		}
 		sendGotEOF := false
+		respClosed := false
 		for _, o := range res.Ops {
 			op := s.Client.Ops[o.Idx]
 			if op.Op == "cancel" || op.Op == "sleep" || op.Op == "cancelafter" {
 				continue
 			}
 			if o.Idx >= len(tr.OpTimes) {
+				continue
+			}
+			if op.Op == "closeresp" {
+				respClosed = true
+			}
+			if respClosed && (op.Op == "recv" || op.Op == "recvall") {
+				// Receive after CloseResponse: the caller threw the rest of the
+				// response (and with it the server's error) away; what such a
+				// Receive reports is outside the property
+				info.Label("recv-after-closeresponse")
 				continue
 			}
 			startedAfter := starts[o.Idx] > tr.CtxDoneAt || (starts[o.Idx] == tr.CtxDoneAt && (seqCancelBefore(o.Idx) || c.Mode == "deadline" && c.Instant != "tie" && c.Instant != "blocked-recv" && c.Instant != "blocked-send"))
